@@ -102,8 +102,9 @@ class C02(Check):
 
     def bounds(self, tier):
         return {'(N,W)': self._nw(tier), 'lambda forms': ['scalar', 'symmetric matrix'], 'rho': 'symbolic > 0',
-                'x-update q=I': 'n<=3' if tier == 'quick' else 'n<=4', 'x-update orthogonal q': 'n=2',
-                'driver': 'compressed length 1..3, max_iterations 1..3, with/without rho_update'}
+                'x-update q=I': 'n<=3' if tier == 'quick' else 'n<=6', 'x-update orthogonal q': 'n=2',
+                'stopping rule': 'compressed length 1,3' if tier == 'quick' else 'compressed length 1,3,6 (length 10 does not finish in 25 min: outside the claim)',
+                'driver': 'compressed length 1..3, max_iterations 1..%d, with/without rho_update' % (3 if tier == 'quick' else 4)}
 
     def configs(self, tier):
         cfgs = [Config('soft_threshold', self.soft, {}, nonlinear=True, witness_every=1, robust=True)]
@@ -117,7 +118,7 @@ class C02(Check):
         cfgs.append(Config('x_update_orthogonal_n2', self.xupdate_orth, {}, nonlinear=True, prove_timeout_ms=240000,
                            fork_ite=True, split=1))
         cfgs.append(Config('x_update_kkt_lemma_n2', self.kkt_lemma, {'n': 2}, nonlinear=True, prove_timeout_ms=240000))
-        for L in ([1, 3] if tier == 'quick' else [1, 3, 6, 10]):
+        for L in ([1, 3] if tier == 'quick' else [1, 3, 6]):
             cfgs.append(Config('convergence_L%d' % L, self.convergence, {'L': L}, nonlinear=True, witness_every=2))
         for cb in (False, True):
             cfgs.append(Config('driver_cb%d' % cb, self.driver, {'cb': cb, 'maxit': 3 if tier == 'quick' else 4}, nonlinear=True, split=3))
